@@ -68,9 +68,12 @@ fn lossy_strategy(tier: Tier) -> BoxedStrategy<Case> {
                 (prop_oneof![1 => 1u32..16, 2 => 16u32..2048, 3 => 2048u32..65536], prop::option::weighted(0.3, 0u32..2000)),
                 gens::latency(),
                 gens::fates_fair(tier.pick(500, 2000), 150),
-                any::<u64>(),
+                // 30 %: the path silently discards datagrams above some size (the same in both directions): every size
+                // probe above it is lost together with its retransmissions — each probe is one identity, dropped a
+                // bounded number of times
+                (any::<u64>(), prop::option::weighted(0.3, 0u16..=1000)),
             )
-                .prop_map(move |((mut s0, mut s1), (ta, pa), (tb, pb), (bufa, pausea), (bufb, pauseb), lat_ms, fates, key)| {
+                .prop_map(move |((mut s0, mut s1), (ta, pa), (tb, pb), (bufa, pausea), (bufb, pauseb), lat_ms, fates, (key, blackhole))| {
                     // uTP: the acceptor learns that the handshake completed from the initiator's first data packet
                     let ta = ta.max(1);
                     // keep the packet count bounded with tiny MTUs
@@ -99,10 +102,20 @@ fn lossy_strategy(tier: Tier) -> BoxedStrategy<Case> {
                     if let Some(p) = pauseb { b_r.push(ROp::Read { n: ta / 2, buf: bufb }); b_r.push(ROp::Sleep(p)); left -= ta / 2; }
                     // (exactly the expected bytes: end-of-stream is not what this property promises, see below)
                     b_r.push(ROp::Read { n: left, buf: bufb });
+                    let path_mtu = match blackhole {
+                        Some(f) => {
+                            let ipudp = s0.ip_udp();
+                            let lo = s0.min_payload().max(s1.min_payload()) + 20 + ipudp;
+                            let hi = (s0.link_mtu as usize).min(s1.link_mtu as usize).max(lo);
+                            let p = (lo + (hi - lo) * f as usize / 1000) as u16;
+                            (Some(p), Some(p))
+                        }
+                        None => (None, None),
+                    };
                     let sc = Scenario {
                         socks: vec![s0, s1],
                         conns: vec![ConnPlan { from: 0, to: 1, start_ms: 0, key, a_w, a_r, b_w, b_r }],
-                        net: NetPlan { family: Family::FairLossy { k }, lat_ms, path_mtu: (None, None), fates, cut_at: None },
+                        net: NetPlan { family: Family::FairLossy { k }, lat_ms, path_mtu, fates, cut_at: None },
                         events: vec![],
                         deadline_ms: 0, // computed by the runner below
                         linger_ms: 0,
@@ -163,7 +176,9 @@ impl CheckDef for Lossy {
         let base_ms = 60_000 + sum_sleeps(&sc) + 3 * rounds * rtt_ms;
         // each permitted drop can cost one maximally backed-off RTO; the back-off ratchets up to the 60 s cap under
         // sustained loss (it is only reset by a clean RTT sample), hence 65 s per drop
-        sc.deadline_ms = (base_ms + 65_000 * sc.net.fates.iter().filter(|f| matches!(f, crate::sim::Fate::Drop)).count() as u64).min(40_000_000) as u32;
+        // a black-holed size probe costs its own (1 + probe retransmissions) timeouts; at most ~2*log2(range)+3 probes per direction
+        let blackhole_ms = if sc.net.path_mtu.0.is_some() { 2 * 30 * 4 * 65_000u64 } else { 0 };
+        sc.deadline_ms = (base_ms + blackhole_ms + 65_000 * sc.net.fates.iter().filter(|f| matches!(f, crate::sim::Fate::Drop)).count() as u64).min(40_000_000) as u32;
         let no_guard = case.no_guard || std::env::var("UTPVERIF_NO_GUARD").is_ok();
         let setup = |net: &Net| { if !no_guard { install_f7_guard(net); protect_window_reopen(net); } };
         let res = e2e::run_with(&sc, trace, setup);
@@ -451,8 +466,8 @@ pub fn run(ctx: &mut Ctx) {
     ctx.assume("virtual deadlines stand in for 'eventually'; tokio paused clock; sim::Net");
     ctx.replay_corpus::<Lossy>();
     ctx.replay_corpus::<LossFree>();
-    ctx.run_generated::<Lossy>(ctx.tier.pick(2_000, 60_000));
-    ctx.run_generated::<LossFree>(ctx.tier.pick(2_000, 60_000));
+    ctx.run_generated::<Lossy>(ctx.tier.pick(15_000, 600_000));
+    ctx.run_generated::<LossFree>(ctx.tier.pick(15_000, 600_000));
     let _ = install_guards;
 }
 
